@@ -575,6 +575,9 @@ func (dec *Decoder) Literal(ptr *string) bool {
 	if err == nil {
 		*ptr = sb.String()
 	}
+	// The CRLF we've seen belongs to the literal header, it doesn't end the
+	// line: DiscardLine still has to skip what follows the literal data
+	dec.crlf = false
 	return dec.returnErr(err)
 }
 
